@@ -30,10 +30,11 @@ INTERNAL = (AssertionError, TypeError, KeyError, IndexError, RuntimeError, Attri
 class AbsBytes(S.Sym):
     """bytes value: explicit prefix (byte terms) followed by the unread rest of the abstract source from position `frm`"""
 
-    def __init__(self, prefix, frm, with_rest=True):
+    def __init__(self, prefix, frm, with_rest=True, limited=None):
         self.prefix = list(prefix)
         self.frm = frm
         self.with_rest = with_rest
+        self.limited = limited  # a cap on the number of bytes taken from the rest (islice): the rest is not all of it
 
     def __repr__(self):
         return f"AbsBytes({self.prefix}, rest-from {self.frm})" if self.with_rest else f"AbsBytes({self.prefix})"
@@ -57,6 +58,16 @@ class AbsSource:
     def __bytes__(self):
         self.ops.append("bytes")
         raise TypeError("cannot convert 'source' object to bytes")
+
+
+class AbsGenSource(AbsSource):
+    """a source that is a generator (what every front-end hands in): it can also be closed, which loses its unread rest"""
+
+    closed = False
+
+    def close(self):
+        self.ops.append("close")
+        self.closed = True
 
 
 class Ghost:
@@ -109,7 +120,7 @@ def unit_pump(mode, tpm_type_name="Command"):
         G = Ghost(ctx)
         root_path = Path(PathNode(""))
         EV = mk_events(ctx, root_path)
-        source = AbsSource(ctx)
+        source = AbsSource(ctx) if ctx.fork([z3.BoolVal(True), z3.BoolVal(True)], "kind-of-source") == 0 else AbsGenSource(ctx)
         OBJ = object()
         state = {"proc_args": None, "fail_err": None}
 
@@ -196,6 +207,21 @@ def unit_pump(mode, tpm_type_name="Command"):
                         prefix.append(x)
             return AbsBytes(prefix, G.pulled, with_rest=rest)
 
+        def islice_model(I, args, kwargs):
+            # itertools.islice(<chain over the source>, n): at most n bytes; of an unbounded rest that is not all of it
+            if args and isinstance(args[0], AbsBytes) and len(args) == 2:
+                a, n = args
+                if a.limited is not None or not isinstance(n, int):
+                    raise Unsupported("islice of a limited / symbolic length")
+                if not a.with_rest or G.exhausted:
+                    return AbsBytes(a.prefix[:n], a.frm, with_rest=False)
+                return AbsBytes(a.prefix[:n], a.frm, with_rest=True, limited=max(n - len(a.prefix), 0))
+            if args and args[0] is source:
+                source.ops.append("drain")
+                return AbsBytes([], G.pulled, with_rest=True, limited=args[1] if len(args) == 2 and isinstance(args[1], int) else -1)
+            raise Unsupported("itertools.islice on this argument")
+            yield
+
         def bytes_model(I, args, kwargs):
             if args and isinstance(args[0], AbsBytes):
                 return args[0]
@@ -211,14 +237,14 @@ def unit_pump(mode, tpm_type_name="Command"):
         import binascii
         import itertools
 
-        stubs = {M.process: process_stub, iter: iter_model, next: next_model, itertools.chain: chain_model, bytes: bytes_model, binascii.hexlify: hexlify_model}
+        stubs = {M.process: process_stub, iter: iter_model, next: next_model, itertools.chain: chain_model, itertools.islice: islice_model, bytes: bytes_model, binascii.hexlify: hexlify_model}
         # proc.send is looked up as an attribute: give it a function the interpreter can stub
         def _send(self, x):
             raise RuntimeError("abstract")
         Proc.send = _send
         stubs[_send] = lambda I, args, kwargs: send_stub(I, args[1:], kwargs)
 
-        loops = {("marshal", 0): OuterLoop(G, EV, strict, site), ("marshal", 1): InnerLoop(G, EV, strict, site)}
+        loops = {("*", "while", 0): OuterLoop(G, EV, strict, site), ("*", "while", 1): InnerLoop(G, EV, strict, site)}
         I = Interp(ctx, stubs=stubs, loop_specs=loops)
         I.models_sym_method_hook = None
         kw = {"abort_on_error": strict}
@@ -270,7 +296,7 @@ def rest_matches(br, G, include_look):
     """bytes_remaining must denote: [look-ahead byte if it is outstanding] ++ unread rest of the source"""
     if isinstance(br, AbsSource):
         # the iterator itself: its remaining content is the unread rest; correct iff no look-ahead byte is outstanding
-        return include_look is None
+        return include_look is None and not getattr(br, "closed", False)
     if isinstance(br, AbsBytes):
         want = [include_look] if include_look is not None else []
         if len(br.prefix) != len(want):
@@ -278,6 +304,8 @@ def rest_matches(br, G, include_look):
         for a, b in zip(br.prefix, want):
             if not (isinstance(a, S.SInt) and a.t.eq(b)):
                 return False
+        if br.limited is not None and not G.exhausted:
+            return False  # only a bounded part of the unread rest
         return br.with_rest or G.exhausted
     if isinstance(br, (bytes, list, tuple)) and len(br) == 0:
         return include_look is None and G.exhausted
